@@ -423,16 +423,16 @@ def execute_stress(ctx, case):
 def run(ctx):
     ctx.set_budget(60, 840)
     quick = ctx.tier == "quick"
-    ctx.explore(case_st, lambda c: execute(ctx, c), ctx.scale(3500, 100000))
+    ctx.explore(case_st, lambda c: execute(ctx, c), ctx.scale(3500, 70000))
     name = st.text(alphabet="ab.", min_size=1, max_size=3)
     step = st.one_of(st.tuples(st.just("raw"), case_st), st.tuples(st.just("derive"), st.integers(0, len(DERIVE) - 1), name))
-    ctx.explore(st.lists(step, min_size=2, max_size=5), lambda c: execute_seq(ctx, c), ctx.scale(1000, 40000), seed_offset=1)
-    ctx.explore(long_path(13 if quick else 17), lambda c: execute_long(ctx, c), ctx.scale(500, 6000), seed_offset=2)
+    ctx.explore(st.lists(step, min_size=2, max_size=5), lambda c: execute_seq(ctx, c), ctx.scale(1000, 25000), seed_offset=1)
+    ctx.explore(long_path(13 if quick else 17), lambda c: execute_long(ctx, c), ctx.scale(500, 1000), seed_offset=2)
     try:
-        ctx.explore(conc_st, lambda c: execute_conc(ctx, c), ctx.scale(1200, 40000), seed_offset=3)
+        ctx.explore(conc_st, lambda c: execute_conc(ctx, c), ctx.scale(1200, 30000), seed_offset=3)
     finally:
         S.shutdown_pool()
-    ctx.explore(stress_st, lambda c: execute_stress(ctx, c), ctx.scale(12, 400), shrink=False, seed_offset=4)
+    ctx.explore(stress_st, lambda c: execute_stress(ctx, c), ctx.scale(12, 300), shrink=False, seed_offset=4)
 
 
 def replay(ctx, case):
